@@ -129,7 +129,7 @@ func (pass *DisjunctionToType) processDisjunction(visitor *Visitor, schema *ast.
 	if disjunction.Branches.HasOnlyScalarOrArrayOrMap() {
 		structType.Hints[ast.HintDisjunctionOfScalars] = disjunction
 	}
-	if disjunction.Branches.HasOnlyRefs() {
+	if disjunction.Branches.NonNullTypes().HasOnlyRefs() {
 		if len(disjunction.Discriminator) == 0 {
 			return ast.Type{}, fmt.Errorf("discriminator not set")
 		}
